@@ -80,6 +80,10 @@ def make_tree(root):
         else:
             with open(p, "wb") as f:
                 f.write(data)
+    # fixed timestamps (deepest first, so that directories keep theirs): the archived metadata is the same in every run
+    ns = 1_600_000_000_123_456_700
+    for name, kind, data in sorted(TREE, key=lambda t: -t[0].count("/")):
+        os.utime(os.path.join(root, name), ns=(ns, ns), follow_symlinks=False)
 
 
 SESSION_MEMBERS = {
